@@ -30,7 +30,7 @@ def generate(tier, seed):
     n = 60 if tier == "quick" else 2000
     for k in range(n):
         cases.append({"kind": "layered", "seed": "%d:ly:%d" % (seed, k), "cost": 1})
-    n = 12 if tier == "quick" else 600
+    n = 48 if tier == "quick" else 1200
     for k in range(n):
         cases.append({"kind": "lookups", "seed": "%d:l:%d" % (seed, k), "cost": 40})
     return cases
@@ -412,10 +412,32 @@ def run_case(case, tier):
         LOOKED_UP.clear()
         recs = sources.full_protein(rng.choice(("1HPX.pdb", "4DFR.pdb", "1FTJ-Chain-A.pdb"))) if rng.random() < 0.3 \
             else sources.random_small_structure(rng, 100, 900)
-        if rng.random() < 0.4:
-            # several conformations with mutants: group types that only a later conformation holds
+        if rng.random() < 0.5:
+            # several conformations with mutants: group types that only a later conformation holds (the one tyrosine,
+            # histidine or cysteine of a small cut-out cut back to a stub in the first model)
             from .. import multiconf
-            recs, _d = multiconf.build(rng, base=sources.random_small_structure(rng, 100, 700))
+            base_ = [r for r in sources.random_small_structure(rng, 60, 300) if r.raw is not None or r.alt in (" ", "A")]
+            base_ = [multiconf._blank_alt(r) if r.raw is None else r for r in base_]
+            rare = {}
+            for r in base_:
+                if r.raw is None and r.tag == "ATOM  " and r.resn in ("TYR", "HIS", "CYS", "TRP", "LYS", "ARG"):
+                    rare.setdefault(r.resn, set()).add((r.chain, r.resnum, r.icode))
+            pick = sorted(rn for rn, s_ in rare.items() if len(s_) <= 2)
+            if pick:
+                rn = rng.choice(pick)
+                recs = []
+                for m_ in (1, 2):
+                    recs.append(pdbio.raw("MODEL     %4d" % m_))
+                    for r in base_:
+                        if r.raw is None and m_ == 1 and r.resn == rn and r.aname() not in ("N", "CA", "C", "O", "CB"):
+                            continue
+                        if r.raw is None and m_ == 1 and r.resn == rn:
+                            r = r.copy()
+                            r.resn = "ALA"
+                        recs.append(r)
+                    recs.append(pdbio.raw("ENDMDL"))
+            else:
+                recs, _d = multiconf.build(rng, base=base_)
         run = obs.run_single(pdbio.dump(recs), keep_mol=True)
         counts["pipeline_runs"] = 1
         if run.mol is not None:
